@@ -101,7 +101,7 @@ def random_call_context(rng):
     return {"kw": kw, "pre": pre, "phase_pick": rng.randrange(8), "history": rng.choice(HISTORIES), "hseed": rng.randrange(1 << 30)}
 
 
-def _sibling(sysobj, spec, seed):
+def _sibling(sysobj, spec, seed, reorder=False):
     """A second System is assembled from the VERY SAME component objects (a user re-using their part definitions),
     configured with other phase durations and other per-component phase configurations, and solved.  Whatever a
     component object or a class remembers from that must not leak into the system under test."""
@@ -116,6 +116,8 @@ def _sibling(sysobj, spec, seed):
     comps = spec["comps"]
     if any(c["name"] not in objs for c in comps):
         return
+    if reorder:  # the same parts assembled in another (valid) order: other node indices for the same objects
+        comps = S.topo_orders(spec, rng, rng.choice(["random", "dfs", "reverse_sources"]))["comps"]
     first = comps[0]
     st, sib = H.call(ns.System, "sibling", objs[first["name"]], group=first.get("group", ""), rail=first.get("rail", ""))
     if st != "ok":
